@@ -1,12 +1,14 @@
 (* Props/C03raw.v — raw-vector half of C03 ("every storage format behaves like one reference vector at
    every step"): BytesVec / ZeroCopyVec and EagerVec wrappers of them.  Statements only.
-   Model: Vec/RvModel.v + RvRollback.v (code as of 533ea26); reference vector: Vec/RvSpec.v; relation and
+   Model: Vec/RvModel.v + RvRollback.v (code as of 533ea26 + the repair of write() for stored_len above the
+   on-disk length); reference vector: Vec/RvSpec.v; relation and
    invariant: Vec/RvRefine.v (R = R1 of DESIGN.md B.1 pointwise + equal stamps; Inv = R2, R3, R4, R7 + what
-   batch_write_each needs).  ALL histories of the non-rollback operations (push, truncate, write, flush,
+   batch_write_each needs; R2 in the form "every stored slot is backed by the region, by the `updated` overlay, or
+   is deleted" (RvRefine.Cov), which also holds after a rollback made the vector longer than the region).  ALL histories of the non-rollback operations (push, truncate, write, flush,
    reset, re-import, update, delete, take, fill, stamped writes with and without change records, faults on the
    change directory), ALL element types (tsize, enc, dec arbitrary), ALL retention settings.
    Rollback steps are C04's (Props/C04.v); reset_unsaved is outside C03's operation list. *)
-From Anydb Require Import Common.Base Vec.RvBase Vec.RvModel Vec.RvRollback Vec.RvSpec Vec.RvRefine.
+From Anydb Require Import Common.Base Vec.RvBase Vec.RvModel Vec.RvRollback Vec.RvSpec Vec.RvRefine Vec.RvChain.
 
 (* after EVERY step (the last step of every history h1 ++ [o]): equal results, view = reference contents (hence
    same length, same deleted slots), equal stamps, invariant *)
@@ -39,6 +41,15 @@ Theorem C03_reachable_invariant :
 Proof. exact @reachable_Inv. Qed.
 Print Assumptions C03_reachable_invariant.
 
+(* R2 in its original form: Inv admits stored_len above the on-disk length (only a rollback of a truncating commit
+   produces that state, C04); the histories of C03 never reach it: the region backs every stored slot *)
+Theorem C03_reachable_not_expanded :
+  forall (T : Type) (tsize : N) (enc : T -> list N) (dec : list N -> T) (k0 : N) (h : list op),
+  Forall plain_op h ->
+  stored_len (run tsize enc dec (rv_init k0) h) <= real_stored_len (run tsize enc dec (rv_init k0) h).
+Proof. exact @reachable_not_expanded. Qed.
+Print Assumptions C03_reachable_not_expanded.
+
 (* flush + database flush + drop + import returns exactly the flushed contents and stamp *)
 Theorem C03_reimport :
   forall (T : Type) (tsize : N) (enc : T -> list N) (dec : list N -> T) (s : rv),
@@ -62,7 +73,7 @@ Theorem C03_write_ok :
   forall (T : Type) (tsize : N), (T -> list N) -> forall (dec : list N -> T) (s : rv),
   Inv s ->
   exists (b : bool) (s' : rv),
-    rv_write s = (s', Ok b) /\ Inv s' /\ Normal s' /\ rlen s' = rlen s /\ holes s' = holes s /\
+    rv_write tsize dec s = (s', Ok b) /\ Inv s' /\ Normal s' /\ rlen s' = rlen s /\ holes s' = holes s /\
     stamp s' = stamp s /\ prevf s' = prevf s /\
     (forall i : N, i < rlen s -> view_at tsize dec s' i = view_at tsize dec s i).
 Proof. exact @write_ok. Qed.
